@@ -155,7 +155,7 @@ PROPS = {
         level='proof',
         explain='write_frame returns pad+7+len and appends exactly those bytes (O-C15-frame); write_record returns enc(..).len() (O-C15-record, loop invariant on the running sum); '
                 'each mutator returns wal.len() - old wal.len() including GC bytes (O-C15-api-*, O-C15-gc); 0 exactly on the C13 paths.',
-        kani_quick=[], kani_thorough=['E-hist'], trusted=[FS + ' (RollingWriter::write appends exactly buf)'],
+        kani_quick=[], kani_thorough=['E-dmg', 'E-hist'], trusted=[FS + ' (RollingWriter::write appends exactly buf)'],
         not_decided=[],
     ),
     'C16': dict(
